@@ -2,6 +2,7 @@ import GapicModel.Regex.Match
 import GapicModel.Pinned.Regexes
 import GapicModel.Pinned.CharClass
 import GapicModel.Pinned.Tables
+import GapicModel.Pinned.Funcs
 /-
 C11 — `gapic/schema/naming.py: Naming.build` (namespace / name / version inference from the common proto
 package, with the two pinned regexes run by the engine) and `gapic/utils/options.py: Options.build`
@@ -125,6 +126,21 @@ def parseOpts (flags : List Str) (optString : Str) : List (Str × Str) :=
 /-- `opts.pop(key, default)` on the multimap: the values under `key`, in order -/
 def values (kv : List (Str × Str)) (key : Str) : List Str := (kv.filter (·.1 = key)).map (·.2)
 
+/-! Which occurrence of a REPEATED single-valued key `Options.build` reads.  The code is not uniform, and the model
+mirrors it key by key: `name` and `warehouse-package-name` are read with `opts.pop(key, [""]).pop()` — the LAST
+occurrence in the option string wins (an option appended after a build rule's default overrides it) — while
+`transport`, `autogen-snippets` and `proto-plus-deps` are read with `[0]` — the FIRST occurrence wins. -/
+
+/-- `opts.pop(key, [dflt]).pop()` -/
+def lastValue (kv : List (Str × Str)) (key dflt : Str) : Str := (values kv key).getLast?.getD dflt
+
+/-- `opts.pop(key, [dflt])[0]` -/
+def firstValue (kv : List (Str × Str)) (key dflt : Str) : Str := (values kv key).head?.getD dflt
+
+def keyName : Str := ['n','a','m','e']
+def keyWarehouse : Str := ['w','a','r','e','h','o','u','s','e','-','p','a','c','k','a','g','e','-','n','a','m','e']
+def keyTransport : Str := ['t','r','a','n','s','p','o','r','t']
+
 /-- the file-free part of the `Options` instance `Options.build` returns -/
 structure Answer where
   name : Str
@@ -154,18 +170,34 @@ def consumedKeys : List Str := [
 def answer (kv : List (Str × Str)) : Answer :=
   let v := values kv
   let oldNaming := !(v ['o','l','d','-','n','a','m','i','n','g']).isEmpty
-  { name := (v ['n','a','m','e']).getLast?.getD []
+  { name := lastValue kv keyName []
     nspace := v ['n','a','m','e','s','p','a','c','e']
-    warehouse := (v ['w','a','r','e','h','o','u','s','e','-','p','a','c','k','a','g','e','-','n','a','m','e']).getLast?.getD []
+    warehouse := lastValue kv keyWarehouse []
     autogenSnippets := (match v ['a','u','t','o','g','e','n','-','s','n','i','p','p','e','t','s'] with
                         | [] => true | x :: _ => trueWords.contains x) && !oldNaming
     lazyImport := !(v ['l','a','z','y','-','i','m','p','o','r','t']).isEmpty
     oldNaming := oldNaming
     addIam := !(v ['a','d','d','-','i','a','m','-','m','e','t','h','o','d','s']).isEmpty
     metadata := !(v ['m','e','t','a','d','a','t','a']).isEmpty
-    transport := (match v ['t','r','a','n','s','p','o','r','t'] with | [] => [['g','r','p','c']] | x :: _ => splitOn '+' x)
+    transport := splitOn '+' (firstValue kv keyTransport ['g','r','p','c'])
     restNumericEnums := !(v ['r','e','s','t','-','n','u','m','e','r','i','c','-','e','n','u','m','s']).isEmpty
     protoPlusDeps := (match v ['p','r','o','t','o','-','p','l','u','s','-','d','e','p','s'] with | [] => [] | x :: _ => splitOn '+' x)
     unrecognised := ((kv.map (·.1)).filter (fun k => !consumedKeys.contains k)).eraseDups }
+
+/-! ### The package directory under the parsed overrides -/
+
+/-- `naming.module_name` under the `opts.name` override (`""` = no override) -/
+def overriddenModule (i : Inferred) (nameOv : Str) : Str :=
+  Pinned.Funcs.to_valid_module_name (if nameOv = [] then i.name else nameOverrideText nameOv)
+
+/-- `naming.versioned_module_name` (new naming) under the `opts.name` override -/
+def overriddenVersioned (i : Inferred) (nameOv : Str) : Str :=
+  if i.version = [] then overriddenModule i nameOv else overriddenModule i nameOv ++ '_' :: i.version
+
+/-- the directory `<namespace>/<name>_<version>` all library sources are placed under, for the naming inferred
+from the proto package and the multimap of parsed options: namespace from ALL `namespace` values (lower-cased
+as `_get_filename` does), name from the value of `name` that `Options.build` reads -/
+def packageDir (i : Inferred) (kv : List (Str × Str)) : List Str :=
+  nsWith i ((answer kv).nspace.map PyRt.lower) ++ [overriddenVersioned i (answer kv).name]
 
 end GapicModel.Model.NamingOptions
